@@ -135,6 +135,20 @@ def z3bool(v):
     raise OutOfSubset("not a boolean: %r" % (v,))
 
 
+def _has_quantifier(e):
+    stack, seen = [e], set()
+    while stack:
+        t = stack.pop()
+        if t.get_id() in seen:
+            continue
+        seen.add(t.get_id())
+        if z3.is_quantifier(t):
+            return True
+        if z3.is_app(t):
+            stack.extend(t.children())
+    return False
+
+
 class Path(object):
     """State of one execution path."""
 
@@ -162,8 +176,12 @@ class Path(object):
 
     def _feasible(self, extra):
         s = z3.Solver()
-        s.set("timeout", 300)
-        s.add(*self.pc)
+        s.set("timeout", 500)
+        # quantified hypotheses are left out: pruning only needs an over-approximation, and
+        # the ground part answers in milliseconds
+        for h in self.pc:
+            if not _has_quantifier(h):
+                s.add(h)
         s.add(extra)
         return s.check() != z3.unsat
 
@@ -186,9 +204,11 @@ class Path(object):
             t_ok = self._feasible(cond)
             f_ok = self._feasible(z3.Not(cond))
             if t_ok and not f_ok:
+                self.decisions.append(True)      # forced: recorded so that replays stay aligned
                 self.pc.append(cond)
                 return True
             if f_ok and not t_ok:
+                self.decisions.append(False)
                 self.pc.append(z3.Not(cond))
                 return False
             if not t_ok and not f_ok:
